@@ -40,6 +40,11 @@ func (x *Exec) specIfaceCall(recv Val, method string, args []Val, env *specEnv, 
 		}
 		if acc == nil {
 			other := freshVal(x.c, "dynspec_"+method, res[0].T)
+			if sig, ok := im.fn.Signature, true; ok && len(args) == 0 {
+				if rs := x.unknownDynResults(key, recv, types.NewSignatureType(nil, nil, nil, sig.Params(), sig.Results(), false), method); len(rs) == 1 {
+					other = rs[0]
+				}
+			}
 			acc = &other
 		}
 		v := iteVal(cond, res[0], *acc)
